@@ -15,6 +15,8 @@ pub mod c07;
 pub mod c08;
 pub mod c10;
 pub mod c11;
+pub mod c12;
+pub mod c13;
 pub mod c14;
 pub mod c15;
 pub mod c16;
@@ -43,6 +45,8 @@ pub fn registry() -> Vec<PropEntry> {
     PropEntry { id: "C08", meta: c08::meta, run: c08::run, replay: c08::replay, profiles: &["release", "chk"] },
     PropEntry { id: "C10", meta: c10::meta, run: c10::run, replay: c10::replay, profiles: &["release", "chk"] },
     PropEntry { id: "C11", meta: c11::meta, run: c11::run, replay: c11::replay, profiles: &["release", "chk"] },
+    PropEntry { id: "C12", meta: c12::meta, run: c12::run, replay: c12::replay, profiles: &["release"] },
+    PropEntry { id: "C13", meta: c13::meta, run: c13::run, replay: c13::replay, profiles: &["release", "chk"] },
     PropEntry { id: "C14", meta: c14::meta, run: c14::run, replay: c14::replay, profiles: &["release", "chk"] },
     PropEntry { id: "C15", meta: c15::meta, run: c15::run, replay: c15::replay, profiles: &["release", "chk"] },
     PropEntry { id: "C16", meta: c16::meta, run: c16::run, replay: c16::replay, profiles: &["release"] },
